@@ -8,97 +8,97 @@ COMMON_ASSUMPTIONS = [
 
 PROPS = {
     "C19": {
-        "kinds": [("C19", 2000, 30000)],
+        "kinds": [("C19", 6000, 240000)],
         "rule": "one rendering per case: an affine function or polytope (1-4 rows, 1-6 columns; entries incl. -0.0, zero rows, powers of two up to 2^40 and down to 2^-20, rounding ties, non-dyadic values) with default or random FormatOptions (sorting threshold, simplify_zero, simplify_tautologies, normalize, skip ranges for rows and axes) at precision 0-6, or the DOT / Display text of a random tree with index holes; the string is read back term by term against the stored values and compared with the model string; non-trivial = at least 2 rows / 3 nodes; distinct by case text",
         "assumptions": COMMON_ASSUMPTIONS + ["{:.p} float formatting is modelled as exact round-half-even of the binary value", "rows printed normalised are float quotients: there the model string may differ in the last place (reported INEXACT), the read-back check still applies"],
     },
     "C18": {
-        "kinds": [("C18A", 600, 8000), ("C18N", 300, 3000)],
+        "kinds": [("C18A", 1200, 24000), ("C18N", 600, 9000)],
         "rule": "C18A: one sequence of 1-7 Architecture builder calls (valid and invalid, also after argmax), current_shape after each, real distillation of the accepted architecture, every split point (up to 5) with the composed halves evaluated at 8 inputs, one random extract_range; C18N: one npz file written in the numpy dialect (1-12 linear layers, widths 1-3, relu / hard_tanh / hard_sigmoid markers, padded and unpadded indices reaching 10 and above, unrelated entries, shuffled file order) read back with read_layers; non-trivial = at least 3 queued layers / 6 entries; distinct by case text",
         "assumptions": COMMON_ASSUMPTIONS + ["zip / npy decoding and the regex engine are external: the model starts from the list of entry names and decoded arrays", "inputs whose exact evaluation comes within 1e-9 of a breakpoint or tie in networks containing the non-dyadic hard-sigmoid slope are excluded (rounding clause of C01)"],
     },
     "C01": {
-        "kinds": [("H01", 400, 5000), ("H01T", 0, 2500)],
+        "kinds": [("H01", 800, 15000), ("H01T", 0, 7500)],
         "rule": "one network per case: 1-2 (thorough: up to 3) hidden layers of width 1-3 with per-neuron ReLU / leaky ReLU / hard tanh / hard sigmoid, optional output layer and argmax / class head, optional polyhedral precondition (box, random, with an empty tail); distilled by the real afftree_from_layers and, step by step, by the public operations the builder uses (each step replayed by the model); 14 inputs (6 on hyperplanes of the precondition) compared with the direct evaluation of the layer list; non-trivial = at least 3 steps or a pruning step; distinct by case text",
         "assumptions": COMMON_ASSUMPTIONS + ["the model of afftree_from_layers is the sequence of public operations (apply_func / compose::<false> + infeasible_elimination / compose::<true>); the harness checks on every case that the builder's tree equals the result of that sequence", "rounding clause (non-dyadic weights, inputs away from breakpoints): cases containing the hard-sigmoid slope 1/6 are compared up to relative 2^-40 and reported INEXACT; no claim is made for inputs within rounding distance of a breakpoint"],
     },
     "C09": {
-        "kinds": [("C09", 800, 10000), ("C09T", 0, 4000)],
+        "kinds": [("C09", 2400, 80000), ("C09T", 0, 32000)],
         "rule": "one random binary tree (total/partial, index holes) with a skip schedule for polyhedra(), the plain polyhedra_iter() stream, and 10 inputs (half on hyperplanes) for find_terminal; regions compared with the closed path half-spaces, routing both ways, disjoint interiors decided exactly for up to 8 terminals; non-trivial = at least 5 nodes; distinct by case text",
         "assumptions": COMMON_ASSUMPTIONS + ["cover of the input space by the terminal regions of a total tree follows from the reported regions being exactly the two closed sides of every decision, which is what is compared"],
     },
     "C14": {
-        "kinds": [("C14", 2000, 30000)],
+        "kinds": [("C14", 6000, 240000)],
         "rule": "one constructor / transformation call of Polytope per case (intersection, intersection_n incl. empty list, translate, apply_pre, apply_post with exact unimodular inverse pairs, rotate with signed permutations, hypercube, hyperrectangle and axis_bounds with infinite bounds, unbounded, empty, simplex, cross_polytope, from_normal), dims 1-4; 10 lattice points per case, half on a facet; membership, contains and distance signs judged exactly; non-trivial = the call returns; distinct by case text",
         "assumptions": COMMON_ASSUMPTIONS + ["simplex: sqrt(n+1) is taken from the implementation and checked to square to n+1 within 1e-9; convex-hull statement not checked (partial)"],
     },
     "C10": {
-        "kinds": [("C10", 1500, 20000)],
+        "kinds": [("C10", 4500, 160000)],
         "rule": "one constraint system per case from nine classes (boxes with missing sides, random rows, equality pairs, empty by a margin, parallel/scaled rows, zero rows, simplex-like, half-spaces and strips) in dimension 1-4 with a random objective; status, is_feasible, solve_linprog and the Chebyshev-centre program are judged against an exact certified simplex; non-trivial = at least 2 rows; distinct by case text",
         "assumptions": COMMON_ASSUMPTIONS + ["minilp's floating-point simplex is not modelled; its answers are validated per call against exact certificates with the margins 1e-6 (emptiness / optimal value) and 1e-6 (containment)", "only the default `minilp` backend is built (the `highs` feature needs the HiGHS C++ library)"],
     },
     "C15": {
-        "kinds": [("C15", 1500, 20000)],
+        "kinds": [("C15", 4500, 160000)],
         "rule": "one clean-up call per case (remove_tautologies, remove_duplicate_rows, remove_redundant_row_constraints, normalize, remove_zero_rows, remove_rows) on the constraint classes of C10; sub-sequence, exact set equality row by row, tightness of remove_redundant; non-trivial = at least 3 rows; distinct by case text",
         "assumptions": COMMON_ASSUMPTIONS + ["remove_rows removes the rows the caller names: only the sub-sequence clause applies to it", "normalize: rows are compared as positive multiples up to 1e-12 relative (the quotients are rounded)", "duplicate detection uses the float relation relative_eq: only the direct checks (sub-sequence, set equality) apply"],
     },
     "C03": {
-        "kinds": [("H03", 500, 6000)],
+        "kinds": [("H03", 1500, 48000)],
         "rule": "one operation history on AffTree<2> (random constructor incl. partial trees; 1-6 steps weighted towards compose::<true>, infeasible_elimination and tree arithmetic); 12 fixed inputs evaluated after every step, 8 of them on decision hyperplanes; non-trivial = a pruning step with a result of at least 3 nodes or at least 3 steps; distinct by case text",
         "assumptions": COMMON_ASSUMPTIONS + ["LP answers and mirror_points results are oracles of the model; the replay feeds it the answers logged by the hooks (H1 LP log, H2 state trace); every logged Infeasible answer is checked exactly to be sound by a margin of 1e-6", "pruning is binary-only in the crate (K = 2)"],
     },
     "C04": {
-        "kinds": [("H04", 500, 6000)],
+        "kinds": [("H04", 1500, 48000)],
         "rule": "one operation history (1-10 steps over apply_func, compose<prune on/off>(schema or tree), infeasible_elimination, reduce, + - * /, neg, affine operands) from every constructor; shape checked after each step; non-trivial = at least 3 steps; distinct by case text",
         "assumptions": COMMON_ASSUMPTIONS + ["LP answers and mirror_points results are oracles of the model; the replay feeds it the answers logged by the hooks (H1 LP log, H2 state trace); every logged Infeasible answer is checked exactly to be sound by a margin of 1e-6", "pruning is binary-only in the crate (K = 2)"],
     },
     "C05": {
-        "kinds": [("H05", 500, 6000), ("C05M", 1000, 20000)],
+        "kinds": [("H05", 1500, 48000), ("C05M", 3000, 160000)],
         "rule": "one operation history (1-8 steps, elimination/composition heavy); after every step each stored witness is checked exactly against its path polytope (1e-8 slack) and each node marked infeasible against an exact LP with margin 1e-6; kind C05M: mirror_points on random polytopes / start points / round limits against the exact model loop (normalised polytope taken from the dump, its rows checked to be the original rows divided by their Euclidean norm), returned points checked exactly against the polytope; non-trivial = at least 3 steps or a pruning step; distinct by case text",
         "assumptions": COMMON_ASSUMPTIONS + ["LP answers and mirror_points results are oracles of the model; the replay feeds it the answers logged by the hooks (H1 LP log, H2 state trace); every logged Infeasible answer is checked exactly to be sound by a margin of 1e-6", "pruning is binary-only in the crate (K = 2)"],
     },
     "C06": {
-        "kinds": [("H06", 500, 6000)],
+        "kinds": [("H06", 1500, 48000)],
         "rule": "one compose/eliminate pipeline on total binary trees (schemas and affine maps, fresh and cached states); after each elimination: exact emptiness certificates for every remaining node, single-child check, second run compared and its LP calls counted; non-trivial = at least 3 steps or a pruning step; distinct by case text",
         "assumptions": COMMON_ASSUMPTIONS + ["LP answers and mirror_points results are oracles of the model; the replay feeds it the answers logged by the hooks (H1 LP log, H2 state trace); every logged Infeasible answer is checked exactly to be sound by a margin of 1e-6", "pruning is binary-only in the crate (K = 2)"],
     },
     "C07": {
-        "kinds": [("H07", 500, 6000)],
+        "kinds": [("H07", 1500, 48000)],
         "rule": "one history weighted towards + - * / between trees (all four ownership variants), tree-affine forms on either side, neg; values compared with the coefficient-wise operator on the terminals reached; non-trivial = at least 3 steps or a pruning step; distinct by case text",
         "assumptions": COMMON_ASSUMPTIONS + ["LP answers and mirror_points results are oracles of the model; the replay feeds it the answers logged by the hooks (H1 LP log, H2 state trace); every logged Infeasible answer is checked exactly to be sound by a margin of 1e-6", "pruning is binary-only in the crate (K = 2)"],
     },
     "C08": {
-        "kinds": [("H08", 500, 6000), ("H08R", 500, 6000)],
+        "kinds": [("H08", 1500, 48000), ("H08R", 1500, 48000)],
         "rule": "one history weighted towards reduce after compositions (H08), or starting from a deep tree with re-grown sub-trees (arena indices not in insertion order) whose terminals come from a palette of 3 maps with near-duplicates differing only in a bias or one coefficient, so that merges cascade over several levels (H08R); values before/after, node count, idempotence, no remaining equal-terminal siblings; non-trivial = at least 3 steps or a pruning step; distinct by case text",
         "assumptions": COMMON_ASSUMPTIONS + ["LP answers and mirror_points results are oracles of the model; the replay feeds it the answers logged by the hooks (H1 LP log, H2 state trace); every logged Infeasible answer is checked exactly to be sound by a margin of 1e-6", "pruning is binary-only in the crate (K = 2)"],
     },
     "C11": {
-        "kinds": [("H11", 500, 6000)],
+        "kinds": [("H11", 1500, 48000)],
         "rule": "one history with a random fault plan per step (Error, Unbounded, perturbed witness, far-off witness at up to 4 of the first 14 LP calls); no panic, values, shape, caches, node count against the fault-free run; non-trivial = at least 3 steps or a pruning step; distinct by case text",
         "assumptions": COMMON_ASSUMPTIONS + ["LP answers and mirror_points results are oracles of the model; the replay feeds it the answers logged by the hooks (H1 LP log, H2 state trace); every logged Infeasible answer is checked exactly to be sound by a margin of 1e-6", "pruning is binary-only in the crate (K = 2)"],
     },
     "C17": {
-        "kinds": [("C17", 1500, 30000)],
+        "kinds": [("C17", 4500, 240000)],
         "rule": "one predefined tree per case (six activations, argmax, class characterisation, inf_norm, from_poly with/without else-branch, from_slice+compose+remove_axes), dims 1-5, random parameters incl. invalid ones; 8-13 inputs per case on and around every breakpoint / with ties; non-trivial = generator returns a tree; distinct by case text",
         "assumptions": COMMON_ASSUMPTIONS + ["hard sigmoid: the slope constant is the f64 value of 1/6 (checked to be within 2^-50 of 1/6); evaluation with it is compared up to rounding"],
     },
     "C02": {
-        "kinds": [("C02", 600, 8000), ("C02T", 0, 3000)],
+        "kinds": [("C02", 1800, 64000), ("C02T", 0, 24000)],
         "rule": "one pair of random trees (K in {2,4}, total/partial, leaf-rooted operands, index holes) composed without pruning, or one apply_func; 8-10 lattice inputs per case, half of them moved onto a decision hyperplane; non-trivial = both operands have at least 3 nodes; distinct by case text",
         "assumptions": COMMON_ASSUMPTIONS + ["indices of new nodes are not compared (slab policy), only required to be fresh and distinct"],
     },
     "C13": {
-        "kinds": [("C13", 1500, 20000), ("C13T", 0, 8000), ("C09", 300, 3000)],
+        "kinds": [("C13", 4500, 160000), ("C13T", 0, 64000), ("C09", 900, 24000)],
         "rule": "one (tree shape with index holes, K in {2,3}; start node; traversal kind; skip schedule with repeated skips) per case plus all metrics; non-trivial = tree has at least 5 nodes; distinct by case text",
         "assumptions": COMMON_ASSUMPTIONS + ["size_hint is judged against the number of items still to come if skip_subtree is not called again (the iterator cannot know future skips)"],
     },
     "C12": {
-        "kinds": [("C12", 400, 4000), ("C12T", 0, 1500)],
+        "kinds": [("C12", 1200, 32000), ("C12T", 0, 12000)],
         "rule": "one operation history on Tree<usize,K>, K in {2,3}, 5-30 (thorough: up to 120) steps over add_root/add_child_node/try_remove_child/remove_all_descendants/merge_child_with_parent/update_node with ~35% invalid arguments and index reuse; non-trivial = at least 12 steps; distinct by case text",
         "assumptions": COMMON_ASSUMPTIONS + ["slab key allocation is a parameter of the model (the index the implementation used is checked to be fresh)", "calls that panic (label >= K, merge on a node without exactly one child) are outside the property and only recorded"],
     },
     "C16": {
-        "kinds": [("C16", 3000, 60000)],
+        "kinds": [("C16", 9000, 480000)],
         "rule": "one random operator/constructor call of AffFunc per case on lattice data (dims 1-5); non-trivial = the call returns (does not panic on a deliberately incompatible argument); distinct by case text",
         "assumptions": COMMON_ASSUMPTIONS + ["ndarray kernels (dot, concatenate, stack) compute the mathematically defined result on exactly representable data"],
     },
